@@ -124,6 +124,76 @@ def build_plan(sc, snap, killed):
     return entries, obs
 
 
+TRACE_RE = re.compile(r"^\d+ (\w+)#\d+\((.*)\) = (-?\d+)(.*)$")
+
+
+def project_trace(lines, scratch_hint=None):
+    """file-system calls on scratch files -> events of the Coq acceptor.  Dropped: failed calls (they changed nothing) except
+    stat and close; opening/closing the INPUT file; the lstat that os.Rename does itself (flag AT_SYMLINK_NOFOLLOW = 256)."""
+    def rel(pth):
+        pth = pth.strip('"')
+        if "/verif-c19-" in pth:
+            pth = pth.split("/verif-c19-", 1)[1].split("/", 1)[1]
+        return os.path.normpath(pth)
+    ev = []
+    for l in lines:
+        m = TRACE_RE.match(l)
+        if not m:
+            continue
+        name, args, ret = m.group(1), m.group(2), int(m.group(3))
+        a = [x.strip() for x in args.split(", ")]
+        if name == "newfstatat":
+            if a[-1] != "256":
+                ev.append((0, rel(a[1]), "", 0))
+        elif name == "openat":
+            if "O_CREAT" in a[2] and ret >= 0:
+                ev.append((1, rel(a[1]), "", int(a[3], 8)))
+        elif name == "write":
+            mm = re.match(r"\d+<(.*?)>", a[0])
+            if mm and is_temp(mm.group(1)) and ret >= 0:
+                ev.append((2, rel(mm.group(1)), "", ret))
+        elif name == "close":
+            mm = re.match(r"\d+<(.*?)>", a[0])
+            if mm and is_temp(mm.group(1)):
+                ev.append((3, rel(mm.group(1)), "", 0))
+        elif name in ("renameat", "renameat2", "rename"):
+            if ret >= 0:
+                ps = [x for x in a if x.startswith('"')]
+                ev.append((4, rel(ps[0]), rel(ps[1]), 0))
+        elif name in ("fchmodat", "chmod"):
+            if ret >= 0:
+                ps = [x for x in a if x.startswith('"')]
+                ev.append((5, rel(ps[0]), "", int(a[-1], 8)))
+        elif name in ("unlinkat", "unlink"):
+            if ret >= 0:
+                ps = [x for x in a if x.startswith('"')]
+                ev.append((6, rel(ps[0]), "", 0))
+    return ev
+
+
+def trace_case(sc, res, killed):
+    """Coq term for Harness.chk_trace: the plan gets the temp names and the write sizes seen in the trace"""
+    ev = project_trace(res.get("trace") or [])
+    if not ev:
+        return None, ev
+    creates = [e[1] for e in ev if e[0] == 1]
+    orig = {f[0]: (f[1], f[2]) for f in sc.files}
+    entries, ci = [], 0
+    for i, n in enumerate(sc.names):
+        n = os.path.normpath(n)
+        oc = sc.outcomes[i]
+        mode = orig.get(n, (b"", 0))[1]
+        tname, lens = "mlr-in-place-#%d" % i, []
+        if oc not in ("Missing", "RefusedEarly", "CreateFails") and ci < len(creates):
+            tname = creates[ci]
+            ci += 1
+            lens = [e[3] for e in ev if e[0] == 2 and e[1] == tname]
+        entries.append((n, tname, mode, OC[oc], lens))
+    ent = "[" + "; ".join(f"({cb(n.encode())}, {cb(t.encode())}, {m}, {code}, [{'; '.join(str(x) for x in ls)}])" for n, t, m, code, ls in entries) + "]"
+    tr = "[" + "; ".join(f"({c}, {cb(p1.encode())}, {cb(p2.encode()) if p2 else '[]'}, {n})" for c, p1, p2, n in ev) + "]"
+    return f"({0 if killed else 1}, {ent},\n {tr})", ev
+
+
 def coq_case(kind, sc, entries, obs):
     ent = "[" + "; ".join(f"({cb(n.encode())}, {cb(t.encode())}, {m}, {code}, [{'; '.join(cb(c) for c in ch)}])" for n, t, m, code, ch in entries) + "]"
     before = "[" + "; ".join(f"({cb(n.encode())}, {cb(c)}, {m})" for n, c, m in sc.files) + "]"
@@ -264,7 +334,7 @@ def run(ctx):
     ctx.assumptions = ["os.CreateTemp returns a name that does not exist", "a crash is a process kill; the kernel completes or does not start each system call"]
     forbidden_gate(ctx, ["Base", "C19"])
     ok, why = check_props(ctx, "C19/Props.v", ["C19/Harness.vo", "C19/Proofs.vo"])
-    terms, meta = [], []
+    terms, meta, tterms, tmeta = [], [], [], []
     S = make_scenarios(ctx)
     nviol = 0
 
@@ -280,6 +350,19 @@ def run(ctx):
         entries, obs = build_plan(sc, snap, killed)
         terms.append(coq_case(0 if killed else 1, sc, entries, obs))
         meta.append((sc, res, killed, how, inject, bool(bad)))
+        tterm, ev = trace_case(sc, res, killed)
+        if tterm:
+            tterms.append(tterm)
+            tmeta.append((sc, res, killed, how, ev, bool(bad)))
+            ctx.dist("trace:" + ("killed" if killed else "returned"))
+            # bytes handed to the temp file = the transformed bytes, for every file that was renamed over
+            for (n, content, mode) in sc.files:
+                new = sc.transformed.get(n)
+                if not killed and new is not None and snap.get(n, (None,))[0] == new and new != content:
+                    tn = next((e[1] for e in ev if e[0] == 4 and e[2] == os.path.normpath(n)), None)
+                    wrote = sum(e[3] for e in ev if e[0] == 2 and e[1] == tn)
+                    if tn and wrote != len(new):
+                        ctx.violation({"class": "inplace-trace-bytes", "scenario": sc.name, "file": n, "written": wrote, "file_length": len(new), "how": how})
         if bad and nviol < 8:
             seen = ctx.cov.setdefault("finding_witnesses", {})
             seen[bad[0][0]] = seen.get(bad[0][0], 0) + 1
@@ -291,7 +374,7 @@ def run(ctx):
     with ctx.timed("impl"):
         for sc in S:
             expected_transforms(ctx, sc)
-            res = R.run_inplace(ctx, sc.files, sc.args, names=sc.names)
+            res = R.trace_run(ctx, sc.files, sc.args, names=sc.names)          # to completion, under the ptrace supervisor (for the trace)
             observe(sc, res, False, "mlr -I " + " ".join(sc.args) + " " + " ".join(sc.names))
         # ---- fault injection: one failing system call
         rng = ctx.rng
@@ -355,7 +438,15 @@ def run(ctx):
     with ctx.timed("coq_cases"):
         bad, err = coq_eval_mismatches(ctx, "C19", "C19.Model C19.Harness",
                                        "Z * list (bytes * bytes * Z * Z * list bytes) * list (bytes * bytes * Z) * list (bytes * option (bytes * Z))", "chk", terms, shard=len(terms) // JOBS + 1)
-    ctx.cov["correspondence"] = {"cases": len(terms), "mismatches": len(bad)}
+        bad_t, err_t = coq_eval_mismatches(ctx, "C19trace", "C19.Model C19.Harness", "Z * list (bytes * bytes * Z * Z * list Z) * list tev", "chk_trace",
+                                           tterms, shard=len(tterms) // JOBS + 1)
+    ctx.cov["correspondence"] = {"cases": len(terms), "mismatches": len(bad), "trace_cases": len(tterms), "trace_mismatches": len(bad_t)}
+    err = err + err_t
+    for i in bad_t[:4]:
+        sc, res, killed, how, ev, had = tmeta[i]
+        if not had:
+            ctx.violation({"broken": "correspondence C19.Harness.chk_trace (the traced file-system calls are not the model's op sequence)", "scenario": sc.name,
+                           "how": how, "outcomes": sc.outcomes, "status": res["status"], "projected_trace": [list(e) for e in ev][:60]}, found_input=False)
     if err:
         ctx.violation({"broken": "correspondence-evaluation", "detail": err[-2000:]}, found_input=False)
         return
